@@ -165,6 +165,13 @@ def run(run, tier):
     SC.run_cases(L, EoN, sim, enum, ['D 0'] * len(enum), oracle=oracle, nontrivial=nontrivial, res=res, label='enumerated')
     nrand = 4000 if tier == 'quick' else 40000
     rnd = [L.gen_case(rng, ENTRY, nmax=8, malformed=(i % 40 == 0)) for i in range(nrand)]
+    # an event at exactly t = 0.0 (a falsy time): every 10th case starts at minus the first duration of its first initial node, so that
+    # node's first recovery lands on 0; full data, where the node histories are assembled from the lists of times
+    for i, c in enumerate(rnd):
+        if i % 10 == 3 and c.get('i0') and c.get('rho') is None and c.get('durs') and c['i0'][0] in c['durs']:
+            shift = c['tmax'] - c['tmin']
+            c['tmin'] = -c['durs'][c['i0'][0]][0]; c['tmax'] = c['tmin'] + shift; c['full'] = True
+            res.stat('event_at_time_zero_cases')
     SC.run_cases(L, EoN, sim, rnd, ['W ' + R.ent_tokens(rng, 8) for _ in rnd], oracle=oracle, nontrivial=nontrivial, res=res, label='random')
     cross_check_coq_ref(run, enum[::3] + rnd[::2], res)
     SC.report(run, 'C13', ENTRY, res, 'Model/EventSIS.v', 'Props/C13.v')
